@@ -39,6 +39,7 @@ Inductive dmeta :=
   | DName (n : str)
   | DVis (v : vis)
   | DDoc (s : str)
+  | DStrum (ms : list emeta)   (* strum(..): passed through as #[strum(..)] on the generated enum *)
   | DOther (tokens : str).
 
 Record field := {
